@@ -6,6 +6,8 @@ C02.alts     the decoder has an accepting branch for every alternative form the 
 C02.type     what the decoder passes as node content is bytes on every content branch
 C02.dictref  both token lists equal the reference copy entry by entry
 C02.flags    frame flag constants
+C02.enc      (C01.int + C01.class read as conformance) declared lengths fit and equal the form the encoder chose
+C02.unpack   (C01.unpack) packed-string reader per kind and header byte
 """
 import ast
 import json
@@ -245,7 +247,25 @@ def rule_flags(ctx, fmt):
                   "%s must be %d" % (name, want), "%s == %d" % (name, want))
 
 
+def rule_codec(ctx):
+    """the length-form and packed-string obligations of C01, read as conformance clauses: the frame the encoder emits
+    declares the true length in the form it chose (C02.enc), and the reader of packed strings yields the format's
+    alphabet for every header byte (C02.unpack; the alphabets themselves are compared with the format table by C02.spec)"""
+    scratch = Ctx(ctx.repo, "C01", ctx.tier)
+    for r in ("C01.tags", "C01.int", "C01.class", "C01.pack", "C01.dbl", "C01.unpack"):
+        scratch.rule(r, "", 0)
+    widths = c01.rule_int(scratch)
+    c01.rule_class(scratch, widths)
+    c01.rule_tags(scratch)
+    tables = c01.rule_pack(scratch)
+    if tables:
+        c01.rule_unpack(scratch, tables)
+    ctx.adopt(scratch, {"C01.int": "C02.enc", "C01.class": "C02.enc", "C01.unpack": "C02.unpack"})
+
+
 def run(ctx):
+    ctx.rule("C02.enc", "integer writers are exact and every size-class branch declares a length that fits the form it writes", floor=13)
+    ctx.rule("C02.unpack", "packed strings: reader abstractly executed per (kind, header byte) yields the format's alphabet", floor=6)
     ctx.rule("C02.spec", "encoder/decoder vocabulary equals the independently transcribed format table", floor=9)
     ctx.rule("C02.alts", "decoder accepts every alternative form the format permits", floor=28)
     ctx.rule("C02.type", "decoder passes bytes as node content on every content branch", floor=4)
@@ -259,3 +279,4 @@ def run(ctx):
     rule_type(ctx)
     rule_dictref(ctx)
     rule_flags(ctx, fmt)
+    rule_codec(ctx)
